@@ -225,7 +225,13 @@ fn exec(live: &mut Live, op: &Value, dict: &Dict) -> Value {
                     live.last_fill = 0;
                     match s.read_to_end(&mut b) {
                         Ok(_) => ok(rle::to_json(&b)),
-                        Err(e) => res_err(e),
+                        // io::Read::read_to_end: "any bytes which have already been read will be appended to buf":
+                        // what the vector holds after an error is logged too
+                        Err(e) => {
+                            let mut r = res_err(e);
+                            r["partial"] = rle::to_json(&b);
+                            r
+                        }
                     }
                 }
                 "fill_buf" => match s.fill_buf() {
